@@ -136,6 +136,7 @@ func ClientVsScriptedServer(args []string, dest string, s *SenderScript) (client
 		return err, &SenderLog{}, nil, nil, ""
 	}
 	done := make(chan struct{})
+	s.BeforeGoodbye = func() { s2c.Close() }
 	go func() {
 		defer close(done)
 		log, filters, scriptErr = ScriptedServerSender(&drive.RW{Reader: c2s, Writer: s2c}, s)
@@ -162,6 +163,7 @@ func DaemonVsScriptedClient(mods []rsyncd.Module, module string, args []string, 
 		serverErr = srv.HandleDaemonConn(context.Background(), rsyncd.NewConnection(c2s, s2c, "127.0.0.1:999"))
 		s2c.Close()
 	}()
+	s.BeforeGoodbye = func() { c2s.Close() }
 	log, errLine, scriptErr = ScriptedDaemonClientSender(&drive.RW{Reader: s2c, Writer: c2s}, module, args, s, sendFilterList)
 	c2s.Close()
 	<-done
